@@ -319,3 +319,217 @@ Proof.
     + constructor; auto.
       match goal with H : qempty s = true |- _ => unfold qempty in H; destruct (queue s); [auto|discriminate] end.
 Qed.
+
+(* ------------------------------------------------------------------ A. [enabled] is the graph of [fire] *)
+
+Definition cands (s : st) (t : thr) : list act := match t with Prod => cand_p s | W w => cand_w s w end.
+
+Lemma step_cand s e s' :
+  step s e s' -> In (snd e) (cands s (fst e)) /\ match fst e with W w => w < nthreads s | Prod => True end.
+Proof.
+  destruct 1; cbn [fst snd cands]; unfold cand_w, cand_p;
+    repeat match goal with
+    | H : pcw _ _ = _ |- _ => rewrite H
+    | H : pp _ = _ |- _ => rewrite H
+    | H : prog _ = _ |- _ => rewrite H
+    end; cbn [In]; auto.
+Qed.
+
+Lemma in_succs_of s t a acts s' : In a acts -> fire s (t, a) = Some s' -> In ((t, a), s') (succs_of s t acts).
+Proof. intros I F. unfold succs_of. apply in_flat_map. exists a. split; auto. rewrite F. left; reflexivity. Qed.
+
+Lemma succs_of_in s t acts e s' : In (e, s') (succs_of s t acts) -> fire s e = Some s'.
+Proof.
+  unfold succs_of. intros H. apply in_flat_map in H. destruct H as (a & _ & H).
+  destruct (fire s (t, a)) eqn:F; [|destruct H]. destruct H as [H|[]]. injection H as <- <-. exact F.
+Qed.
+
+Theorem wq_enabled_complete s e s' : fire s e = Some s' -> In (e, s') (enabled s).
+Proof.
+  intros F. destruct (step_cand (fire_step F)) as [I L].
+  destruct e as [[|w] a]; cbn [fst snd cands] in *; unfold enabled; apply in_or_app.
+  - left. apply in_succs_of; auto.
+  - right. apply in_flat_map. exists w. split. { apply in_seq. lia. } apply in_succs_of; auto.
+Qed.
+
+Theorem wq_enabled_sound s e s' : In (e, s') (enabled s) -> fire s e = Some s'.
+Proof.
+  unfold enabled. intros H. apply in_app_or in H. destruct H as [H|H].
+  - eapply succs_of_in; eauto.
+  - apply in_flat_map in H. destruct H as (w & _ & H). eapply succs_of_in; eauto.
+Qed.
+
+(* ------------------------------------------------------------------ invariants of [run] *)
+
+Ltac sts :=
+  cbn [mtx queue pending finished qsize wpcs pp prog executed deleted
+       set_pc set_mtx set_pp set_queue set_pending set_prog set_wpcs add_executed add_deleted] in *.
+
+(** 1. sizes *)
+Lemma inv_sizes T qs pr tr s : run T qs pr tr s -> nthreads s = T /\ qsize s = qs.
+Proof.
+  induction 1 as [|tr s e s' R [IH1 IH2] F].
+  - unfold nthreads, init; cbn. rewrite repeat_length; auto.
+  - apply fire_step in F.
+    destruct F; unfold nthreads in *; sts; rewrite ?upd_length, ?wake_one_length, ?map_length; auto.
+Qed.
+
+Lemma init_pcw T qs pr w : w < T -> pcw (init T qs pr) w = QStart.
+Proof. intros L. unfold pcw, init; cbn [wpcs]. apply nth_repeat_lt; auto. Qed.
+
+(** 2. mutex ownership *)
+Record MX (T : nat) (s : st) : Prop := {
+  mx_p : pholds (pp s) = is_owner (mtx s) Prod;
+  mx_w : forall w, w < T -> holds (pcw s w) = is_owner (mtx s) (W w);
+  mx_lt : forall w, mtx s = Some (W w) -> w < T }.
+
+Lemma is_owner_W m w : true = is_owner m (W w) -> m = Some (W w).
+Proof.
+  destruct m as [[|a]|]; cbn [is_owner]; try discriminate. intros H. symmetry in H. apply Nat.eqb_eq in H. subst; auto.
+Qed.
+Lemma is_owner_P m : true = is_owner m Prod -> m = Some Prod.
+Proof. destruct m as [[|a]|]; cbn [is_owner]; try discriminate; auto. Qed.
+
+Lemma inv_mx T qs pr tr s : run T qs pr tr s -> MX T s.
+Proof.
+  induction 1 as [|tr s e s' R IH F].
+  - constructor; cbn [init mtx pp pholds is_owner]; auto; try discriminate.
+    intros w L. rewrite init_pcw; auto.
+  - destruct (inv_sizes R) as [HT Hq]. apply fire_step in F. destruct IH as [IHp IHw IHlt].
+    destruct F.
+    (* worker steps *)
+    1-20: match goal with Hw : ?w < nthreads ?s, E : pcw ?s ?w = _ |- _ =>
+            pose proof (IHw w ltac:(lia)) as Q; rewrite E in Q; cbn [holds] in Q;
+            try apply is_owner_W in Q
+          end;
+          constructor; unfold pcw, nthreads in *; sts;
+          repeat match goal with Hm : mtx _ = _ |- _ => rewrite Hm in *; clear Hm end;
+          [ rewrite ?pholds_wake_prod; cbn [is_owner] in *; auto
+          | intros w0 L0; rewrite nth_upd' by lia; destruct (w =? w0) eqn:Eq;
+            [ apply Nat.eqb_eq in Eq; subst w0; cbn [holds is_owner]; rewrite ?Nat.eqb_refl; auto
+            | rewrite (IHw w0 L0); cbn [is_owner]; rewrite ?Eq; auto ]
+          | intros w0 Hm0; try discriminate; try (injection Hm0 as <-; lia); auto ].
+    (* producer steps *)
+    all: match goal with E : pp _ = _ |- _ =>
+            rewrite E in IHp; cbn [pholds] in IHp; try apply is_owner_P in IHp
+          end;
+          constructor; unfold pcw, nthreads in *; sts;
+          repeat match goal with Hm : mtx _ = _ |- _ => rewrite Hm in *; clear Hm end;
+          [ cbn [pholds is_owner] in *; auto
+          | intros w0 L0; rewrite ?wake_one_nth_f, ?wake_nth_f by reflexivity;
+            rewrite (IHw w0 L0); cbn [is_owner]; auto
+          | intros w0 Hm0; try discriminate; auto ].
+Qed.
+
+(** 3. [finished] is set exactly during the tail of the destructor; the destructor runs after the whole program *)
+Definition FIN (s : st) : Prop := finished s = pfin (pp s) /\ (pdes (pp s) = true -> prog s = []).
+
+Lemma inv_fin T qs pr tr s : run T qs pr tr s -> FIN s.
+Proof.
+  induction 1 as [|tr s e s' R [IH1 IH2] F].
+  - split; cbn; auto; discriminate.
+  - apply fire_step in F.
+    destruct F; split; sts; rewrite ?pfin_wake_prod, ?pdes_wake_prod; auto;
+      match goal with E : pp _ = _ |- _ => rewrite E in *; cbn [pfin pdes] in * end; auto; discriminate.
+Qed.
+
+(** 4. accounting of task ids *)
+Definition ACC (T : nat) (pr : list op) (s : st) : Prop :=
+  forall id,
+    cnt (adds (prog s)) id + inflight (pp s) id + cnt (queue s) id
+      + countb (fun w => heldpre id (pcw s w)) T + cnt (executed s) id = cnt (adds pr) id
+    /\ cnt (executed s) id = countb (fun w => isdel id (pcw s w)) T + cnt (deleted s) id.
+
+Ltac eqb_cases :=
+  repeat match goal with
+  | |- context [b2n (?a =? ?b)] => destruct (a =? b)
+  | H : context [b2n (?a =? ?b)] |- _ => destruct (a =? b)
+  end; cbn [b2n] in *.
+
+Lemma inv_acc T qs pr tr s : run T qs pr tr s -> ACC T pr s.
+Proof.
+  induction 1 as [|tr s e s' R IH F].
+  - intros id. cbn [init prog pp queue executed deleted inflight count_occ].
+    rewrite !countb_none by (intros w L; rewrite init_pcw; auto). lia.
+  - destruct (inv_sizes R) as [HT Hq]. apply fire_step in F. intros id. specialize (IH id). destruct IH as [IH1 IH2].
+    destruct F.
+    1-20: match goal with Hw : ?w < nthreads ?s, E : pcw ?s ?w = _ |- context [set_pc _ ?w ?p] =>
+            pose proof (@countb_upd (heldpre id) (wpcs s) w p T HT ltac:(lia)) as C1;
+            pose proof (@countb_upd (isdel id) (wpcs s) w p T HT ltac:(lia)) as C2;
+            unfold pcw, nthreads in *; rewrite E in C1, C2
+          end;
+          cbn [heldpre isdel b2n] in C1, C2; sts; rewrite ?inflight_wake_prod;
+          repeat match goal with Hq : queue _ = _ |- _ => rewrite Hq in *; clear Hq end;
+          rewrite ?cnt_cons in *; eqb_cases; lia.
+    all: unfold pcw, nthreads in *; sts;
+         match goal with E : pp _ = _ |- _ => rewrite E in *; clear E end;
+         repeat match goal with Hp : prog _ = _ |- _ => rewrite Hp in *; clear Hp end;
+         cbn [inflight adds] in *;
+         rewrite ?countb_wake_one, ?countb_map_wake by reflexivity;
+         rewrite ?cnt_snoc, ?cnt_cons in *; eqb_cases; lia.
+Qed.
+
+(** 5. pendingTasks *)
+Definition PEND (T : nat) (s : st) : Prop :=
+  pending s = length (queue s) + countb (fun w => counted (pcw s w)) T.
+
+Lemma inv_pend T qs pr tr s : run T qs pr tr s -> PEND T s.
+Proof.
+  unfold PEND. induction 1 as [|tr s e s' R IH F].
+  - cbn [init pending queue length]. rewrite countb_none by (intros w L; rewrite init_pcw; auto). auto.
+  - destruct (inv_sizes R) as [HT Hq]. apply fire_step in F.
+    destruct F.
+    1-20: match goal with Hw : ?w < nthreads ?s, E : pcw ?s ?w = _ |- context [set_pc _ ?w ?p] =>
+            pose proof (@countb_upd counted (wpcs s) w p T HT ltac:(lia)) as C1;
+            unfold pcw, nthreads in *; rewrite E in C1
+          end;
+          cbn [counted b2n] in C1; sts;
+          repeat match goal with Hq : queue _ = _ |- _ => rewrite Hq in *; clear Hq end;
+          cbn [length] in *; lia.
+    all: unfold pcw, nthreads in *; sts;
+         rewrite ?countb_wake_one, ?countb_map_wake by reflexivity;
+         rewrite ?app_length; cbn [length]; lia.
+Qed.
+
+(** 6. a worker is blocked although its predicate holds only between "finished = true" and notify_all;
+       a worker leaves only when finished and the queue is empty (and nothing is pushed after that) *)
+Definition BLK (T : nat) (s : st) : Prop :=
+  (forall w, w < T -> pcw s w = QBlocked -> finished s = false \/ pp s = PDNotify) /\
+  (forall w, w < T -> is_gone (pcw s w) = true -> finished s = true /\ queue s = []).
+
+Lemma wake_one_blocked l w d : nth w (wake_one l) d = QBlocked -> nth w l d = QBlocked.
+Proof. destruct (wake_one_nth l w d) as [->|[_ ->]]; auto; discriminate. Qed.
+
+Lemma map_wake_not_blocked l w : nth w (map wake l) QExited = QBlocked -> False.
+Proof.
+  destruct (Nat.lt_ge_cases w (length l)) as [L|L].
+  - rewrite (nth_map_d wake l w QExited QExited L). destruct (nth w l QExited); discriminate.
+  - rewrite nth_overflow; [discriminate|]. rewrite map_length; auto.
+Qed.
+
+Lemma inv_blk T qs pr tr s : run T qs pr tr s -> BLK T s.
+Proof.
+  induction 1 as [|tr s e s' R IH F].
+  - split; intros w L; rewrite init_pcw; auto; discriminate.
+  - destruct (inv_sizes R) as [HT Hq]. destruct (inv_fin R) as [HF _]. apply fire_step in F.
+    destruct IH as [IHa IHb].
+    destruct F.
+    1-20: match goal with Hw : ?w < nthreads ?s, E : pcw ?s ?w = _ |- _ =>
+            split; intros w0 L0; unfold pcw, nthreads in *; sts; rewrite nth_upd' by lia;
+            (destruct (w =? w0) eqn:Eq;
+             [ apply Nat.eqb_eq in Eq; subst w0; cbn [is_gone]; intros Hb; try discriminate Hb; auto;
+               try (apply (IHb w); [lia | rewrite E; reflexivity])
+             | intros Hb ])
+          end;
+          try (destruct (IHa w0 L0 Hb) as [Hf|Hp]; [left; exact Hf | right; rewrite Hp; reflexivity]);
+          try (destruct (IHb w0 L0 Hb) as [Hf Hq0]; split; auto; congruence).
+    all: match goal with E : pp _ = _ |- _ =>
+           split; intros w0 L0; unfold pcw, nthreads in *; sts;
+           [ intros Hb; try (right; reflexivity);
+             try apply wake_one_blocked in Hb; try (exfalso; exact (map_wake_not_blocked Hb));
+             destruct (IHa w0 L0 Hb) as [Hf|Hp]; [left; exact Hf | congruence]
+           | rewrite ?wake_one_nth_f, ?wake_nth_f by reflexivity;
+             intros Hg; destruct (IHb w0 L0 Hg) as [Hf Hq0];
+             rewrite E in HF; cbn [pfin] in HF; try congruence; split; auto ]
+         end.
+Qed.
